@@ -1,7 +1,7 @@
 (** C16: lockset of the ingest worker pool, wait-before-read, error channel capacity. *)
 From Coq Require Import List NArith String Bool.
 From W.gen Require Import Extracted TieLib.
-From W.model Require Import Pool.
+From W.model Require Import Pool PoolTracker.
 Import ListNotations.
 Open Scope string_scope.
 Example tie_lockset :
@@ -39,4 +39,7 @@ Proof. vm_compute; reflexivity. Qed.
    every worker is shared state the model knows nothing about. *)
 Example tie_worker_fields :
   pool_worker_fields = ["asyncBlocks"; "blocks"; "db"; "errChan"; "logger"; "mutex"; "pt"; "rowsCount"; "tbl"; "wg"].
+Proof. vm_compute; reflexivity. Qed.
+(* the progress tracker delivers ticks with a send that also listens to done *)
+Example tie_progress_tick : progress_ok progress_tick_send = true.
 Proof. vm_compute; reflexivity. Qed.
